@@ -23,7 +23,7 @@
 //!   test `exists(<field>)`
 //! obs  := one item per Q/N/A/E op, `;`-separated:  `<kind q|a|k>/<key>/<answer>/<fresh>/<hit>/<flags>/<after>`
 //!   after = the caller's facts after the call on the long-lived engine (c09's rendering; `?` when a fact outside c09's universe
-//!           or a Null is present) — with answer and hit what the engine model of Driver/C11.lean predicts for every call
+//!           is present; a present Null is rendered `z`) — with answer and hit what the engine model of Driver/C11.lean predicts for every call
 //!   key = query text | max_solutions in force | canonical facts before the call — hex of the text when it is short,
 //!         `h<len>.<two 64-bit FNV digests>` of the text when it is longer than 160 bytes (large stores; the key is only
 //!         compared for equality by the cache model)
@@ -258,7 +258,8 @@ fn facts_text(f: &Facts, c: &[(String, String)]) -> String {
 /// the caller's facts after a call, for the engine model's prediction (`?` outside c09's universe)
 fn after_text(f: &Facts) -> String {
     let c = canon(f);
-    if c.iter().all(|(k, v)| FIELDS.contains(&k.as_str()) && v != "z" && !v.starts_with('?')) {
+    // (a present Null is inside c09's universe since S09: rendered `z`)
+    if c.iter().all(|(k, v)| FIELDS.contains(&k.as_str()) && !v.starts_with('?')) {
         show_facts(f)
     } else {
         "?".to_string()
